@@ -79,6 +79,10 @@ func (p *IdentityProvider) logoutHandleFunc(w http.ResponseWriter, r *http.Reque
 	// get persisted service provider from issuer out of the request
 	checkerInstance.WithLogicStep(
 		func() error {
+			if logoutRequest.Issuer == nil {
+				err = fmt.Errorf("issuer is missing in request")
+				return err
+			}
 			sp, err = p.GetServiceProvider(r.Context(), logoutRequest.Issuer.Text)
 			return err
 		},
@@ -108,7 +112,9 @@ func (p *IdentityProvider) logoutHandleFunc(w http.ResponseWriter, r *http.Reque
 		w,
 		response.makeSuccessfulLogoutResponse(p.TimeFormat),
 	)
-	logging.Info(fmt.Sprintf("logout request for user %s", logoutRequest.NameID.Text))
+	if logoutRequest.NameID != nil {
+		logging.Info(fmt.Sprintf("logout request for user %s", logoutRequest.NameID.Text))
+	}
 }
 
 func getLogoutRequestFromRequest(r *http.Request) (*LogoutRequestForm, error) {
